@@ -26,6 +26,7 @@ import (
 
 	"github.com/megaease/easegress/pkg/context"
 	"github.com/megaease/easegress/pkg/filters"
+	"github.com/megaease/easegress/pkg/filters/requestadaptor"
 	"github.com/megaease/easegress/pkg/protocols/httpprot"
 	"github.com/megaease/easegress/pkg/util/readers"
 )
@@ -94,6 +95,9 @@ type c06Cfg struct {
 	JWT     *c06JWTCfg  `json:"jwt"`
 	Sig     *c06SigCfg  `json:"sig"`
 	Basic   [][2]string `json:"basic"` // nil: not configured
+	// OAuth2: an oauth2.jwt section. The method itself is not modelled: such an instance only EXISTS
+	// in the process (group x), no request is presented to it.
+	OAuth2 *c06JWTCfg `json:"oauth2,omitempty"`
 }
 
 type c06Req struct {
@@ -127,12 +131,29 @@ type c06Mut struct {
 	N  int    `json:"n"`
 }
 
+// c06JPlan: a token issued at run time against the REAL clock (jwt.TimeFunc untouched): the time
+// claims are offsets in seconds from the moment of issue.
+type c06JPlan struct {
+	Alg    string `json:"alg"`
+	Secret string `json:"secret"`
+	Exp    *int64 `json:"exp"`
+	Nbf    *int64 `json:"nbf"`
+	Iat    *int64 `json:"iat"`
+	Cookie string `json:"cookie"` // "" = Authorization: Bearer
+}
+
 type c06In struct {
-	Cfg  c06Cfg      `json:"cfg"`
-	Req  c06Req      `json:"req"`
-	Plan *c06SigPlan `json:"plan"`
-	Muts []c06Mut    `json:"muts"`
-	JNow int64       `json:"jnow"`
+	Cfg   c06Cfg      `json:"cfg"`
+	Req   c06Req      `json:"req"`
+	Plan  *c06SigPlan `json:"plan"`
+	JPlan *c06JPlan   `json:"jplan,omitempty"`
+	// Pre: a filter that runs before the Validator and leaves the request as it is: "" none,
+	// setpath = req.SetPath(req.Path()), trim / regexp / replace = RequestAdaptor with a path rule
+	// that does not change this path
+	Pre  string   `json:"pre,omitempty"`
+	Muts []c06Mut `json:"muts"`
+	// JNow: virtual unix time for jwt (jwt.TimeFunc); 0 = the real clock, jwt.TimeFunc untouched
+	JNow int64 `json:"jnow"`
 	Kind int         `json:"kind"`
 	Note string      `json:"note"`
 }
@@ -188,6 +209,8 @@ type c06Obs struct {
 	Delivered bool       `json:"delivered"`
 	Why       string     `json:"why,omitempty"`
 	NowNs     int64      `json:"nowNs"`
+	JNow      int64      `json:"jnow"`      // the jwt clock (unix s) the verdict is judged against
+	JNowAfter int64      `json:"jnowAfter"` // real-clock cases: the clock after Handle returned
 	TTLNs     int64      `json:"ttlNs"` // time.ParseDuration of the configured ttl (cross-check of the encoder's own parse)
 	Wire      string     `json:"wire,omitempty"` // hex of the request as sent (information only)
 	View      *c06View   `json:"view"`
@@ -256,6 +279,9 @@ func c06NewGeneration(cfg *c06Cfg, id int, prev *Validator) (*Validator, error) 
 				"credential": l.Credential, "contentSha256": l.ContentSHA256, "signingKeyPrefix": l.SigningKeyPrefix}
 		}
 		raw["signature"] = m
+	}
+	if cfg.OAuth2 != nil {
+		raw["oauth2"] = map[string]interface{}{"jwt": map[string]interface{}{"algorithm": cfg.OAuth2.Alg, "secret": cfg.OAuth2.Secret}}
 	}
 	if cfg.Basic != nil {
 		// FILE mode with an htpasswd file ({SHA} entries: fast, exercises the real file cache)
@@ -375,7 +401,7 @@ var c06TagPrefixes = []struct {
 
 // c06Deliver passes the wire bytes to the filter exactly along the server's
 // path (mux.go: ByteCountReader body, NewRequest, FetchPayload, Handle).
-func c06Deliver(v *Validator, wire []byte, jnow int64, cookieName string) (obs c06Obs) {
+func c06Deliver(v *Validator, wire []byte, jnow int64, cookieName string, pre string) (obs c06Obs) {
 	stdr, err := c06Parse(wire)
 	if err != nil {
 		obs.Why = "net/http: " + err.Error()
@@ -390,9 +416,19 @@ func c06Deliver(v *Validator, wire []byte, jnow int64, cookieName string) (obs c
 		return
 	}
 	obs.Delivered = true
+	// the view is the request as the server delivered it; a filter in front of the Validator that
+	// does not change any covered part must not change the verdict
 	obs.View = c06ViewOf(stdr, req.RawPayload(), cookieName)
-	jwt.TimeFunc = func() time.Time { return time.Unix(jnow, 0) }
-	defer func() { jwt.TimeFunc = time.Now }()
+	c06PreFilter(ctx, req, pre)
+	if jnow != 0 {
+		old := jwt.TimeFunc
+		jwt.TimeFunc = func() time.Time { return time.Unix(jnow, 0) }
+		defer func() { jwt.TimeFunc = old }()
+		obs.JNow, obs.JNowAfter = jnow, jnow
+	} else {
+		obs.JNow = time.Now().Unix()
+		defer func() { obs.JNowAfter = time.Now().Unix() }()
+	}
 	obs.NowNs = time.Now().UnixNano()
 	func() {
 		defer func() {
@@ -417,6 +453,36 @@ func c06Deliver(v *Validator, wire []byte, jnow int64, cookieName string) (obs c
 		}
 	}
 	return
+}
+
+// c06PreFilter: what a pipeline may run before the Validator without touching a covered part.
+func c06PreFilter(ctx *context.Context, req *httpprot.Request, pre string) {
+	var path map[string]interface{}
+	switch pre {
+	case "":
+		return
+	case "setpath":
+		req.SetPath(req.Path())
+		return
+	case "trim":
+		path = map[string]interface{}{"trimPrefix": "/zz-no-such-prefix"}
+	case "regexp":
+		path = map[string]interface{}{"regexpReplace": map[string]interface{}{"regexp": "^/zz-nomatch/(.*)$", "replace": "/$1"}}
+	case "replace":
+		path = map[string]interface{}{"replace": req.Path()}
+	default:
+		panic("verif: unknown pre filter " + pre)
+	}
+	spec, err := filters.NewSpec(nil, "", map[string]interface{}{"kind": requestadaptor.Kind, "name": "c06ra", "path": path})
+	if err != nil {
+		panic("verif: harness defect: request adaptor spec: " + err.Error())
+	}
+	f := filters.GetKind(requestadaptor.Kind).CreateInstance(spec)
+	f.Init()
+	defer f.Close()
+	if res := f.Handle(ctx); res != "" {
+		panic("verif: harness defect: request adaptor returned " + res)
+	}
 }
 
 func c06CK(s string) string { return textproto.CanonicalMIMEHeaderKey(s) }
